@@ -66,7 +66,11 @@ protected:
      */
     static int executeCommand(std::string exe, std::vector<std::string> args, std::string redirect, std::string &output_);
 
-    static bool reportUnmatchedSuppressions(const Settings &settings, const SuppressionList& suppressions, const std::list<FileWithDetails> &files, const std::list<FileSettings>& fileSettings, ErrorLogger& errorLogger);
+    /**
+     * @param nofail the --exitcode-suppressions (optional)
+     * @return true if an unmatched suppression was reported which is not matched by an exitcode suppression
+     */
+    static bool reportUnmatchedSuppressions(const Settings &settings, const SuppressionList& suppressions, const std::list<FileWithDetails> &files, const std::list<FileSettings>& fileSettings, ErrorLogger& errorLogger, SuppressionList* nofail = nullptr);
 
 private:
     /**
